@@ -1,8 +1,11 @@
 """C12 — template rendering follows the documented grammar; bound values stay data.
 
 Protocol (one case = a HISTORY over several Ribosome instances):
-  env <extraWordCps> <extraSpaceCps> <markerPre> <markerSuf> (<set>=<filterName>,…)*   (rewritten by run_impl from the
-                                              tree under test: CPython/regex facts, marker, the filters each set GIVES)
+  env <extraWordCps> <extraSpaceCps> <markerPre> <markerSuf> (<set>=<filterName>,…)* @render=<name>,… @translate=<name>,…
+                                              (rewritten by run_impl from the tree under test: CPython/regex facts, marker,
+                                              the filters each set GIVES; @render/@translate = the context names of the case
+                                              that the CALL PROTOCOL of synthesize/translate rejects with TypeError because
+                                              they name a positionally filled parameter - probed with an empty template)
   ctx (<name>=<kind><truthy>,<str(value)>[,L<item>;…])*     kind: s i b n (scalars) l t (list/tuple) m (dict)
                                                              item = <kind><str(item)>[/<key>~<value>]*
   fenv (<set>:<filter>:<var>:o:<result> | <set>:<filter>:<var>:r:<class>)*   (rewritten by run_impl: the filters a
@@ -20,6 +23,8 @@ Protocol (one case = a HISTORY over several Ribosome instances):
 """
 from __future__ import annotations
 
+import inspect
+import keyword
 import re
 
 from ..core import Infra, Prop, Violation, import_repo, hexs, unhexs
@@ -288,6 +293,48 @@ DICTS = [{"a": "A1", "q": "Q"}, {"item": "OVR"}, {"index": "IDX", "b": "B2"}, {}
 HDICTS = [{"a": "{{b}}"}, {"q": "}}"}, {"a b": "SP"}]
 
 
+# --- names of template variables that are also names of something else -------------------------------------
+# A binding reaches translate()/synthesize() as a KEYWORD ARGUMENT.  The property says every binding is data, whatever
+# the variable is called; so variable names are also drawn from (a) every identifier in the signatures of the public
+# callables of the anchored module, read from the tree under test at run time (`sig_names`), (b) a static list of
+# plausible option / attribute / local names, (c) Python keywords, (d) dunder and underscore names.
+STATIC_SPECIAL = ["strict", "silent", "filters", "templates", "template", "sequence", "self", "name", "description",
+                  "context", "warnings", "kwargs", "args", "cls", "codons", "default", "required", "value", "key",
+                  "result", "mrna", "source_mrna", "variables_bound", "codon_type", "anticodon", "amino_acid",
+                  "defaults", "escape", "mode", "verbose", "depth", "fuel", "match", "pattern", "var_name"]
+KEYWORDS = sorted(set(keyword.kwlist) | set(getattr(keyword, "softkwlist", [])))
+DUNDERS = ["__class__", "__init__", "__dict__", "__name__", "__doc__", "__len__", "__str__", "__builtins__",
+           "__call__", "__self__", "_", "__", "_strict", "_translations_count", "_errors_count"]
+# the positional parameters of the two entry points on the pinned tree: a binding with such a name cannot be GIVEN through
+# that entry point (Python raises TypeError before the body runs).  The oracle makes no claim when that happens - and
+# only then; every other name must render as data.  Fixed here (not read from the tree): a tree that captures more
+# names has changed behaviour.
+CALL_POSITIONAL = {"render": {"self", "sequence", "template"}, "translate": {"self", "template"}}
+
+
+def sig_names(module) -> list:
+    """every parameter name of every public callable (and constructor / dataclass field) of the anchored module"""
+    out = set()
+    for cname in ("Ribosome", "mRNA", "Protein", "Codon", "tRNA"):
+        cls = getattr(module, cname, None)
+        if cls is None:
+            continue
+        for attr in dir(cls):
+            if attr.startswith("_") and attr != "__init__":
+                continue
+            fn = getattr(cls, attr, None)
+            if not callable(fn):
+                continue
+            try:
+                sig = inspect.signature(fn)
+            except (TypeError, ValueError):
+                continue
+            for q in sig.parameters.values():
+                if q.kind not in (q.VAR_KEYWORD, q.VAR_POSITIONAL):
+                    out.add(q.name)
+    return sorted(n for n in out if re.fullmatch(r"\w+", n))
+
+
 def pr(segs) -> str:
     o = []
     for s in segs:
@@ -315,13 +362,16 @@ class C12(Prop):
     all_branches = ["cond:then", "cond:else", "cond:noelse", "loop:items", "loop:empty", "loop:notlist", "loop:dict",
                     "inc:known", "inc:unknown", "filt:apply", "filt:unknown", "filt:unbound", "dflt:bound",
                     "dflt:default", "dflt:isfilter", "opt:bound", "opt:unbound", "var:bound", "var:unbound",
-                    "strict:raise", "raise:filter", "raise:recursion", "warn:any",
+                    "strict:raise", "raise:filter", "raise:recursion", "warn:any", "call:typeerror",
                     "layers:agree", "layers:differ", "spec:agree", "spec:differ", "spec:none"]
     assumptions = [
         "CPython's re (\\w, \\s, leftmost non-overlapping matching), str.replace, str()/bool() of bound values and the "
         "filter callables are environment: the harness reports their results on the case's data to the model",
         "include depth beyond the model's fuel (60) and CPython's recursion limit are both reported as RecursionError",
-        "context names are identifiers other than the parameter names of translate/synthesize; dict keys are strings",
+        "context names match \\w+ (any such name: keywords, dunder names, names of parameters/attributes of the anchored "
+        "classes); a name equal to a positionally filled parameter of the entry point (self, template; sequence for "
+        "synthesize) cannot be given as a keyword at all (TypeError from the call protocol, modelled, no oracle claim); "
+        "dict keys are strings",
         "custom filters return str; the Protein fields source_mrna/variables_bound and the statistics counters are not modelled",
     ]
     trusted_modelled = ["modelled, not verified: Ribosome.translate and its four passes as Operon.Ribosome.translate "
@@ -341,15 +391,40 @@ class C12(Prop):
             self.marker = (probe[:i], probe[i + 2:])
         else:
             self.marker = (probe, "")
+        self.signames = sig_names(m)
+        self.special = sorted(set(self.signames) | set(STATIC_SPECIAL) | set(KEYWORDS) | set(DUNDERS))
+        self._rsv = {}
+
+    def rejected(self, op, name):
+        """does the call protocol of the entry point reject a keyword binding called `name` (TypeError before any
+        rendering)?  Probed on the tree under test with an empty template and the value None; cached."""
+        k = (op, name)
+        if k not in self._rsv:
+            m = self.m
+            rb = m.Ribosome(silent=True)
+            try:
+                if op == "render":
+                    rb.synthesize("", **{name: None})
+                else:
+                    rb.templates["p"] = m.mRNA(sequence="", name="p")
+                    rb.translate("p", **{name: None})
+                self._rsv[k] = False
+            except TypeError:
+                self._rsv[k] = True
+            except Exception:
+                self._rsv[k] = False
+        return self._rsv[k]
 
     def given(self, st):
         """the filters an instance constructed with custom set `st` was GIVEN: builtins + its own"""
         return {**self.builtin, **CUSTOM.get(st, {})}
 
     # --- generation ---------------------------------------------------------------------------------------
+    _nm = NAMES
+
     def _inline(self, R, braces):
         k = R.random()
-        n = R.choice(NAMES)
+        n = R.choice(self._nm)
         if k < 0.28:
             return ("text", R.choice(TEXTS + (BTEXTS if braces and R.random() < 0.5 else [])))
         if k < 0.5: return ("var", n)
@@ -373,9 +448,10 @@ class C12(Prop):
             k = R.random()
             if k < 0.45: segs.append(self._inline(R, braces))
             elif k < 0.62:
-                segs.append(("if", R.choice(NAMES), self._body(R, braces, incs),
+                segs.append(("if", R.choice(self._nm), self._body(R, braces, incs),
                              self._body(R, braces, incs) if R.random() < 0.5 else None, ws()))
-            elif k < 0.8: segs.append(("each", R.choice(["xs", "ys", "a", "xs"]), self._body(R, braces, incs, True), ws()))
+            elif k < 0.8: segs.append(("each", R.choice(["xs", "ys", "a", "xs"] + self._nm[len(NAMES):len(NAMES) + 1]),
+                                       self._body(R, braces, incs, True), ws()))
             elif k < 0.93: segs.append(("inc", R.choice(incs + ["missing"]) if incs else "missing"))
             else: segs.append(("text", "t"))
         return segs
@@ -390,9 +466,9 @@ class C12(Prop):
     def _ctx(self, R, hostile):
         ctx = {}
         pool = SAFE_VALS + (HOSTILE * 2 if hostile else [])
-        for n in NAMES:
+        for n in dict.fromkeys(self._nm):
             if R.random() < 0.6:
-                if n in ("xs", "ys"):
+                if n in ("xs", "ys") or (n not in NAMES and R.random() < 0.15):
                     ip = SAFE_VALS[:8] + DICTS + ((HOSTILE[:20] + HDICTS) if hostile else [])
                     v = [R.choice(ip) for _ in range(R.choice([0, 1, 1, 2, 3]))]
                     ctx[n] = tuple(v) if R.random() < 0.15 else v
@@ -431,6 +507,11 @@ class C12(Prop):
         R = rng
         for _ in range(n):
             mode = R.random()
+            # variable names that are also parameter / attribute / keyword / dunder names (0-3 per case, repeated so
+            # that they are actually picked)
+            sp = [R.choice(self.signames + STATIC_SPECIAL) if R.random() < 0.6 else R.choice(KEYWORDS + DUNDERS)
+                  for _ in range(R.choice([0, 0, 0, 1, 1, 2, 3]))]
+            self._nm = NAMES + sp * 3
             hostile = mode < 0.35
             braces = R.random() < 0.25
             malformed = mode > 0.93
@@ -593,13 +674,36 @@ class C12(Prop):
                                        + [("tmpl", 0, "hdr2", ents[0][2]), ("reg", 0, "", "", "x")] + looks
                                        + [("put", 0, "header", "zz", "<H>"), ("translate", 0, "page"), ("tmpl", 0, "page", "P{{>header}}"),
                                           ("translate", 0, "page")], "mixed ways, re-registration, nameless register"))
+        # name probes: the same template shape over every special variable name, every entry point, strict or not,
+        # truthy / falsy / list / missing bindings - the rendering must not depend on what a variable is called
+        nameprobes = []
+        if tier == "quick":
+            pn = sorted(set(self.signames) | {"context", "kwargs", "args", "cls", "value", "mode", "verbose", "if", "class",
+                                              "None", "in", "not", "lambda", "match", "__class__", "__init__", "__dict__", "_"})
+            vals = ["yes", 0, ["p", "q"], None]
+        else:
+            pn = self.special
+            vals = ["yes", True, 0, "", ["p", "q"], None, "x y"]
+        for V in pn:
+            shape = ("m={{V}} {{#if V}}T{{#else}}E{{/if}} o={{?V}} d={{V|not set}} u={{V|upper}} "
+                     "{{#each V}}[{{item}}]{{/each}}{{>inc}}").replace("V", V)
+            incl = "<{{V}}{{#if V}}I{{/if}}>".replace("V", V)
+            ops = []
+            for i, strict in ((0, False), (1, True)):
+                ops += [("new", i, strict, "none"), ("tmpl", i, "inc", incl), ("tmpl", i, "top", shape)]
+            for v in vals:
+                ops.append(("ctx", {"b": "B"} if v is None else {V: v, "b": "B"}))
+                ops += [("render", 0, shape), ("translate", 0, "top"), ("render", 1, shape), ("translate", 1, "top")]
+            nameprobes.append(self.hcase({}, ops, "variable named like a parameter / attribute / keyword / dunder"))
         return [{"name": "every single construct x binding state x strictness", "cases": cases},
+                {"name": "name probes (variables named like parameters of the entry points, attributes, keywords, dunders)",
+                 "cases": nameprobes},
                 {"name": "pass-order probes", "cases": probes},
                 {"name": "registration probes (constructor mapping, register_template, create_template, direct assignment)", "cases": regs},
                 {"name": "history probes (several instances, renders after errors, re-registration)", "cases": hist}]
 
     # --- implementation -----------------------------------------------------------------------------------
-    def _env_line(self, strings, sets):
+    def _env_line(self, strings, sets, names=()):
         words, spaces = set(), set()
         for s in strings:
             for ch in s:
@@ -607,7 +711,9 @@ class C12(Prop):
                     if re.match(r"\w", ch): words.add(ch)
                     if re.match(r"\s", ch): spaces.add(ch)
         return " ".join(["env", hexs("".join(sorted(words))), hexs("".join(sorted(spaces))), hexs(self.marker[0]),
-                         hexs(self.marker[1])] + [st + "=" + ",".join(hexs(f) for f in self.given(st)) for st in sets])
+                         hexs(self.marker[1])] + [st + "=" + ",".join(hexs(f) for f in self.given(st)) for st in sets]
+                        + ["@" + op + "=" + ",".join(hexs(n) for n in names if self.rejected(op, n))
+                           for op in ("render", "translate")])
 
     def _strings_of(self, lines):
         out = []
@@ -630,7 +736,14 @@ class C12(Prop):
         sets = sorted({l.split()[3] for l in lines if l.startswith("new ") and len(l.split()) >= 4 and l.split()[3] in CUSTOM})
         if lines and lines[0].startswith("env"):
             allf = [f for st in sets for f in self.given(st)]
-            lines[0] = self._env_line(self._strings_of(lines[1:]) + list(self.marker) + allf, sets)
+            cnames = []
+            for l in lines:
+                if l.startswith("ctx"):
+                    try:
+                        cnames += [n for n in dec_ctx(l)[0] if n not in cnames]
+                    except Exception:
+                        pass
+            lines[0] = self._env_line(self._strings_of(lines[1:]) + list(self.marker) + allf, sets, sorted(cnames))
         obs = []
         py, ab = {}, {}
         insts = {}
@@ -754,6 +867,16 @@ class C12(Prop):
             attrib.append(finding)
         for idx, op, arg, strict, templates, ab, fres, filters, st in self._walk(case):
             o = obs[idx]
+            # every binding is data, whatever the variable is called: the call must not reject (or swallow) a keyword.
+            # Only a name that is a positional parameter of this entry point on the pinned tree cannot be given at all.
+            # (A TypeError can also come out of a given filter, e.g. length of an int: then the reference decides below.)
+            if o == "raise:TypeError":
+                if any(n in CALL_POSITIONAL[op] for n in ab):
+                    continue
+                if not any(k == "r" and r == "TypeError" for (k, r) in fres.values()):
+                    add(Violation("bindings_are_data_whatever_their_name", "the template rendered with the given bindings",
+                                  o + f" (bound names: {sorted(ab)})", idx), None)
+                    continue
             if op == "translate":
                 if arg not in templates:
                     continue
